@@ -349,11 +349,17 @@ func (e *Exec) mergeValue(g *Term, a, b Value, owner int) (Value, bool) {
 		if sameBacking(x.B, y.B) {
 			return &StrV{B: x.B, Off: e.ctx.Ite(g, x.Off, y.Off), Len: e.ctx.Ite(g, x.Len, y.Len)}, true
 		}
-		// different backings: build a common backing when both lengths are concrete-bounded
-		xo, xl, okx := strWindow(x)
-		yo, yl, oky := strWindow(y)
-		if !okx || !oky {
+		// different backings: build a common backing (needs concrete offsets)
+		if !x.Off.IsConst() || !y.Off.IsConst() {
 			return nil, false
+		}
+		xo, yo := int(x.Off.val), int(y.Off.val)
+		xl, yl := len(x.B)-xo, len(y.B)-yo
+		if x.Len.IsConst() {
+			xl = int(x.Len.val)
+		}
+		if y.Len.IsConst() {
+			yl = int(y.Len.val)
 		}
 		n := xl
 		if yl > n {
